@@ -36,7 +36,10 @@ RULE = (
     "generated instantaneous problems with reference-valid sequential plans time-stamped with increasing and partly coinciding "
     "rational times; only plans that vk.ref.ttsem judges VALID are used. evaluations = valid plans whose conversion was "
     "observed. distinct_nontrivial = distinct valid plans with >= 2 steps of which two interfere (one writes a fluent the other "
-    "reads or writes; lifted read/write sets) or start/end at a common instant."
+    "reads or writes; lifted read/write sets) or start/end at a common instant. Problems get (profile amount_fluents) an action "
+    "that increases/decreases a fluent by a non-static fluent amount and a writer of that amount; every valid plan with >= 2 steps "
+    "is observed a second time for the problem whose goals additionally pin the plan's outcome (final values of the changed "
+    "ground fluents), counted as a separate evaluation."
 )
 ASSUMPTIONS = [
     "validity before and after the round trip is decided by vk/ref/ttsem.py (bounds and invariants included)",
@@ -44,8 +47,8 @@ ASSUMPTIONS = [
 ]
 SHARD_TIMEOUT = {"quick": 600, "thorough": 5400}
 BOUNDS = {"quick": dict(n=500, tries=6, keep=2), "thorough": dict(n=16000, tries=8, keep=3)}
-PROFILE_T = dict(keep_goals=0.15, invariants=0.05, undefined_init=0.03, int_params=0.1)
-PROFILE_I = dict(invariants=0.15, undefined_init=0.03, interpreted_functions=0.0, max_depth=1)
+PROFILE_T = dict(keep_goals=0.15, invariants=0.05, undefined_init=0.03, int_params=0.1, amount_fluents=0.35)
+PROFILE_I = dict(invariants=0.15, undefined_init=0.03, interpreted_functions=0.0, max_depth=1, amount_fluents=0.35)
 
 
 def plan(tier, seed):
@@ -202,6 +205,44 @@ def open_bound_within_2eps(pb, steps):
                         return True
                     if iv.is_right_open() and 0 < hi - t < 2 * eps:
                         return True
+    return False
+
+
+def pinned_goals(pb, v0):
+    """Goals fixing the final value of every ground fluent whose final value differs from its initial one."""
+    em = pb.environment.expression_manager
+    s0, s1 = seqsem.initial_state(pb), v0.final_state
+    if s1 is None:
+        return []
+    out = []
+    for (name, args), v in sorted(s1.items(), key=str):
+        if (name, args) in s0 and s0[(name, args)] == v:
+            continue
+        f = pb.fluent(name)
+        fe = seqsem.fexp(pb, f, args)
+        if f.type.is_bool_type():
+            out.append(fe if v else em.Not(fe))
+        elif f.type.is_user_type():
+            out.append(em.Equals(fe, em.ObjectExp(pb.object(v))))
+        else:
+            q = Fraction(v)
+            out.append(em.Equals(fe, em.Int(int(q)) if q.denominator == 1 else em.Real(q)))
+    return out
+
+
+def amount_order_sensitive(steps):
+    """Some step increases / decreases a fluent by an amount that reads a fluent which a *later starting* other step writes."""
+    for i, (s, a, args, d) in enumerate(steps):
+        effs = [e for el in a.effects.values() for e in el] if hasattr(a, "duration") else list(a.effects)
+        amt = set()
+        for e in effs:
+            if e.is_increase() or e.is_decrease():
+                amt |= {f.name for f in fluents_in(e.value)}
+        if not amt:
+            continue
+        for j, (s2, a2, _, _) in enumerate(steps):
+            if j != i and s2 > s and rw_sets(a2)[1] & amt:
+                return True
     return False
 
 
@@ -368,9 +409,35 @@ def _run_case(key, tier, b, res, rng, e, temporal, nonglobal):
         res.count("no_valid_plan_found")
         return
     pid = h(rec)
+    base_goals = list(pb.goals)
     for steps, v0 in plans:
         res.count("valid_plans:" + ("temporal" if temporal else "instantaneous"))
-        observe(pb, steps, v0, {"case_key": key, "tier": tier, "recipe": rec, "non_global_environment": nonglobal}, res, pid)
+        wbase = {"case_key": key, "tier": tier, "recipe": rec, "non_global_environment": nonglobal}
+        nv = res.counters.get("violations_raw", 0)
+        observe(pb, steps, v0, wbase, res, pid)
+        if res.counters.get("violations_raw", 0) > nv or len(steps) < 2:
+            continue
+        # the same plan for the problem whose goals additionally pin the outcome of the plan (every ground fluent the plan
+        # changed must end with the value the reference computed): any re-timing that changes what the plan achieves is then
+        # visible to the statement's own notion of validity
+        pins = pinned_goals(pb, v0)
+        if not pins:
+            continue
+        try:
+            for g in pins:
+                pb.add_goal(g)
+            v0p = ttsem.validate(pb, steps)
+            if v0p.status != ttsem.VALID:
+                res.count("pinned:not-valid-under-reference")
+                continue
+            res.count("valid_plans:outcome-pinned")
+            if amount_order_sensitive(steps):
+                res.count("valid_plans:outcome-pinned:increase-by-fluent-then-writer")
+            observe(pb, steps, v0p, {**wbase, "pinned_goals": [str(g) for g in pins]}, res, pid + ":pinned")
+        finally:
+            pb.clear_goals()
+            for g in base_goals:
+                pb.add_goal(g)
 
 
 def thresholds(m):
@@ -378,7 +445,7 @@ def thresholds(m):
     out = []
     if c.get("valid_plans_interfering_or_coinciding", 0) < 20:
         out.append(f"fewer than 20 valid plans with interference ({c.get('valid_plans_interfering_or_coinciding', 0)})")
-    for k in ("valid_plans:temporal", "valid_plans:instantaneous", "feature:coinciding-sources"):
+    for k in ("valid_plans:temporal", "valid_plans:instantaneous", "feature:coinciding-sources", "valid_plans:outcome-pinned", "valid_plans:outcome-pinned:increase-by-fluent-then-writer"):
         if c.get(k, 0) < 10:
             out.append(f"fewer than 10 observations of {k} ({c.get(k, 0)})")
     if c.get("feature:timed-effect", 0) + c.get("feature:timed-goal", 0) < 10:
